@@ -47,7 +47,9 @@ def main(argv):
             ctx.stop_watchdog()
             sys.setrecursionlimit(1000)
             if type(e).__name__ == "CaseTimeout":
-                ctx.report_hang()
+                ctx.report_hang(may_abort=False)
+            elif type(e).__name__ == "ShardAbort":
+                ctx.count("shard_aborted_after_hangs")
             else:
                 raise
         ctx.stop_watchdog()
@@ -80,7 +82,7 @@ def main(argv):
         except Exception:  # noqa: B902
             pass
     with open(a.out, "w") as fh:
-        json.dump(res, fh)
+        json.dump(res, fh, default=repr)
     return 0
 
 
